@@ -7,17 +7,19 @@ from ..core import AnalysisError, unparse, qualname
 from .. import rules_e1 as R
 
 EXPLANATION = (
-    "Static decision-table analysis of lint's report loop. R1: the chain of `if ...: continue` statements is "
-    'read into boolean atoms over the binding and its region (marked used, leading underscore, star import, '
-    'region in module/class scope, is an import, from __future__, top-level name used through a dotted import, '
-    'is a parameter, enclosing scope is a class) and evaluated path-sensitively for every consistent valuation '
-    '(class-hierarchy and syntax facts prune impossible ones); the resulting function valuation -> {none, W01, '
-    'W02} must equal the reference function written from the property statement, row by row; R2 (E1) every '
+    "Decision-table analysis of lint by abstract interpretation (sa/api_model.py). R1: linter.lint is interpreted on a stub "
+    'analysis holding exactly one binding, once for every consistent valuation of nine boolean facts about the binding and '
+    'its region (marked used, leading underscore, star import, region in module/class scope, is an import, from __future__, '
+    'top-level name read through a dotted import, is a parameter, enclosing scope is a class; class-hierarchy and syntax facts '
+    'prune impossible ones; 176 rows): the diagnostics must equal the reference function valuation -> {none, W01, W02} written '
+    'from the property statement, row by row; R2 (E1) every '
     'binder kind constructs the Name class the atoms test (parameters ArgumentName, imports ImportedName with '
     '`qualified` exactly for un-aliased dotted imports and `is_star` exactly for star-import copies, everything '
-    'else neither); R3 the report carries the binding\'s own name and declared_at and the loop enumerates each '
-    'binding once; R4 `.used` is written only by use_name. Whether `used` is set for the right bindings is C02.')
-TECHNIQUE = 'decision-table extraction from the AST + exhaustive valuation enumeration against a reference table'
+    'else neither); R3 each report carries the binding\'s own name and declared_at (interpreted: distinctive positions), '
+    'two unused bindings give one report each, SourceScope.all_names (interpreted on a scope built by supp\'s constructors) '
+    'yields every stored binding once with its region; R4 `.used` is written only by use_name and a call of the builtin '
+    'locals() marks exactly the bindings of its own scope (interpreted). Whether `used` is set for the right bindings is C02.')
+TECHNIQUE = 'abstract interpretation of lint on one-binding stub analyses for every consistent valuation of the exemption facts, against a reference table'
 
 LINTER = 'supp/linter.py'
 
